@@ -54,7 +54,10 @@ def gen_case(seed):
                        "mapping": rng.choice(["dict", "dict", "defaultdict", "ordered", "chainmap"]),
                        # the partition is returned through a KeyOverrideResult (its value objects then live under
                        # <override key>/<partition key>)
-                       "override": rng.random() < 0.2})
+                       "override": rng.random() < 0.2,
+                       # the function fills the partition's dictionary step by step, consulting the partition's own key
+                       # listing on the way ("add what is not there yet"), and attaches the parent after a first listing
+                       "staged": rng.random() < 0.2})
     ops = []
     for _ in range(rng.randrange(2, 12)):
         r = rng.random()
@@ -126,6 +129,14 @@ def _segment(root, case, ops, first_index):
                 import collections
                 d = {k: mkval(lv["own"][k], x) for k in sorted(lv["own"])}
                 mp = lv.get("mapping", "dict")
+                if lv.get("staged") and mp == "dict":
+                    full, d = d, {}
+                    p = InMemoryPartition(d)
+                    for k in sorted(full):
+                        if k not in p.list_keys():
+                            d[k] = full[k]
+                    side.events.append(["mapping", level, "staged"])
+                    mp = "staged"
                 if mp == "defaultdict":
                     dd = collections.defaultdict(list)
                     dd.update(d)
@@ -135,7 +146,8 @@ def _segment(root, case, ops, first_index):
                     d = collections.OrderedDict(d)
                 elif mp == "chainmap":
                     d = collections.ChainMap(d)
-                p = InMemoryPartition(d)
+                if mp != "staged":
+                    p = InMemoryPartition(d)
             if parent is not None and lv["merge"]:
                 p._merge_parent = parent
                 side.events.append(["parent", level, type(parent).__name__])
